@@ -19,6 +19,9 @@ property's own predicates on the implementation's outputs):
 MT19937 / numpy RandomState / scipy.stats.multinomial.rvs are ORACLES: the harness re-creates the generator the
 model names (kind, seed), replays the requests the model predicts in the predicted order and expects bit-identical
 values.
+Translator ties, re-proved on every run: _random_number_to_data (gen/py2coq.py, coq/gen/C14_Equiv.v); calc_empi_dist_sequence, to_stream,
+Experiment.reset_seed_data / .seed_data, QTomography.reset_seed (gen/c14_py2coq.py, coq/gen/C14_Equiv2.v).  When a tie breaks, the sub-checks
+that exercise the function sweep with the thorough counts (search for a concrete failing input).
 The model is the code AS REPAIRED by /verif/fixes/C14-*.diff: on a tree without those repairs the sub-checks raise violations
 (each with a concrete replay) and the regenerated-model equivalence (coq/gen/C14_Equiv.v) does not compile."""
 import itertools, math, warnings
@@ -32,6 +35,12 @@ BAND = 1e-9          # decisions closer than this to a cumulative-sum threshold 
 
 def F(x):
     return Fraction(*float(x).as_integer_ratio())
+
+
+def cn(ctx, quick, thorough):
+    """case counts; when a translator tie is broken (the regenerated function no longer equals the model) the sub-checks that exercise
+    the translated function sweep with the thorough counts in the quick tier too: they are then the search for a concrete failing input"""
+    return thorough if getattr(ctx, "cur_sub", None) in getattr(ctx, "widen", ()) else ctx.n(quick, thorough)
 
 
 # ====================================================================== probability vectors
@@ -147,7 +156,7 @@ def chk_rn2data(ctx, case):
 def sub_rn2data(ctx):
     rng = ctx.rng
     cases = []
-    for _ in range(ctx.n(150, 1500)):
+    for _ in range(cn(ctx, 150, 1500)):
         ps, dy = rand_probvec(rng)
         cums = float_cums(ps)
         rs = [0.0, float(np.nextafter(1.0, 0.0)), rng.random(), rng.random(), rng.random()]
@@ -214,7 +223,7 @@ def sub_fallback(ctx):
     ]
     # every uniform vector [1/k]*k whose binary64 running sum stays below 1, followed by 1..3 zero-probability outcomes
     # (and one with a zero in front): r = 1 - 2^-53 reaches the end of the loop
-    for k in range(2, ctx.n(60, 400)):
+    for k in range(2, cn(ctx, 60, 400)):
         base = [1.0 / k] * k
         if float_cums(base)[-1] < 1.0:
             z = 1 + k % 3
@@ -272,10 +281,10 @@ def chk_gen_data(ctx, case):
 def sub_gen_data(ctx):
     rng = ctx.rng
     cases = []
-    for _ in range(ctx.n(80, 800)):
+    for _ in range(cn(ctx, 80, 800)):
         ps, _ = rand_probvec(rng)
         cases.append({"ps": ps, "n": rng.choice([0, 1, 5, 40, 200]), "seed": rng.randint(0, 2 ** 31)})
-    for _ in range(ctx.n(12, 60)):                # malformed stream
+    for _ in range(cn(ctx, 12, 60)):                # malformed stream
         ps, _ = rand_probvec(rng, dyadic=True)
         kind = rng.choice(["neg", "sum-high", "sum-low", "tiny-neg"])
         j = max(range(len(ps)), key=lambda t: ps[t])
@@ -417,12 +426,12 @@ def chk_empi_seqs(ctx, case):
 def sub_empi_seq(ctx):
     rng = ctx.rng
     # (a) exhaustive short data
-    short = [{"m": m, "len": L, "patterns": PATTERNS} for m in ctx.n([0, 1, 2], [0, 1, 2, 3]) for L in range(0, ctx.n(4, 5))]
+    short = [{"m": m, "len": L, "patterns": PATTERNS} for m in cn(ctx, [0, 1, 2], [0, 1, 2, 3]) for L in range(0, cn(ctx, 4, 5))]
     short.append({"m": -1, "len": 1, "patterns": [[], [1]]})
     ctx.run_cases("empi_seq", chk_empi_short, short)
     # (b) random long data, mostly valid
     cases = []
-    for _ in range(ctx.n(60, 600)):
+    for _ in range(cn(ctx, 60, 600)):
         m = rng.randint(1, 16); L = rng.choice([10, 50, 300, 2000, 5000])
         data = [rng.randrange(m) if rng.random() < 0.8 else rng.choice([0, m - 1]) for _ in range(L)]
         k = rng.randint(1, 6)
@@ -443,7 +452,7 @@ def sub_empi_seq(ctx):
     ctx.run_cases("empi_seq", chk_empi_seq, cases)
     # (c) the list version, with its own length checks
     lcases = []
-    for _ in range(ctx.n(20, 200)):
+    for _ in range(cn(ctx, 20, 200)):
         k = rng.randint(0, 3)
         ms = [rng.randint(1, 4) for _ in range(k)]
         ds = [[rng.randrange(mm) for _ in range(rng.randint(3, 12))] for mm in ms]
@@ -915,14 +924,57 @@ def gen_history(rng, hid, focus=None):
     return {"id": hid, "hops": hops}
 
 
+FN_OF = {"dg": ["data", "dataset", "empi_seq", "empi_seqs"], "ex": ["data", "dataset", "empi_seq", "empi_seqs"], "md": ["sampling"],
+         "qst": ["empi_dist", "empi_dists", "empi_dists_seq"], "povmt": ["empi_dist", "empi_dists", "empi_dists_seq"],
+         "qpt": ["empi_dist", "empi_dists", "empi_dists_seq"], "qmpt": ["empi_dist", "empi_dists", "empi_dists_seq"]}
+
+
+def matrix_history(rng, hid, t, fn, kind):
+    """EVERY entry point x seed kind (None / int / numpy int / shared Generator), systematically: the call is made twice with an
+    unrelated global draw in between; arguments always ask for several schedules / sample sizes, so that a per-schedule or
+    per-sample-size re-creation of the stream (plural entry point re-using the singular one with an int seed) shows up"""
+    seed = rng.randint(10 ** 6, 2 * 10 ** 6)
+    sog = {"none": ["none"], "int": ["int", seed], "npint": ["npint", seed], "gen": ["gen", 0]}[kind]
+    S = NSCHED.get(t, 0)
+    nn = lambda: rng.choice([7, 30, 100])
+
+    def call():
+        h = {"op": "call", "target": t, "fn": fn, "sog": sog}
+        if t == "dg":
+            if fn == "data": h.update(pd=rng.randrange(len(PDS)), n=20)
+            elif fn == "dataset": h.update(pds=[rng.randrange(len(PDS)) for _ in range(3)], ns=[5, 20, 5], ss=[sog] * 3, sog=["none"])
+            elif fn == "empi_seq": h.update(pd=rng.randrange(len(PDS)), ns=[nn(), nn(), nn()])
+            else: h.update(pds=[rng.randrange(len(PDS)) for _ in range(3)], lns=[[nn(), nn()] for _ in range(3)])
+        elif t == "md":
+            h.update(pd=rng.randrange(len(PDS)), num=nn(), size=3)
+        elif t == "ex":
+            if fn == "data": h.update(sched=rng.randrange(S), n=20)
+            elif fn == "dataset": h.update(ns=[20] * S)
+            elif fn == "empi_seq": h.update(sched=rng.randrange(S), ns=[nn(), nn(), nn()])
+            else: h.update(lns=[[nn() for _ in range(S)] for _ in range(2)])
+        else:
+            if fn == "empi_dist": h.update(sched=rng.randrange(S), n=nn())
+            elif fn == "empi_dists": h.update(n=nn())
+            else: h.update(ns=[nn(), nn()])
+        return h
+    hops = [{"op": "seed_global", "z": rng.randint(0, 2 ** 31)}, {"op": "new_gen", "z": rng.randint(1, 10 ** 6)},
+            call(), {"op": "global_draw", "n": 2}, call()]
+    return {"id": hid, "hops": hops}
+
+
 def sub_flow(ctx):
     rng = ctx.rng
     cases = []
     hid = 0
+    for t in ["dg", "ex", "md", "qst", "povmt", "qpt", "qmpt"]:
+        for fn in FN_OF[t]:
+            for kind in ("none", "int", "npint", "gen"):
+                for _ in range(cn(ctx, 1, 4)):
+                    cases.append(matrix_history(rng, "m%d" % hid, t, fn, kind)); hid += 1
     for focus in ["dg", "ex", "md", "qst", "povmt", "qpt", "qmpt"]:
-        for _ in range(ctx.n(12, 120)):
+        for _ in range(cn(ctx, 12, 120)):
             cases.append(gen_history(rng, hid, focus)); hid += 1
-    for _ in range(ctx.n(40, 400)):
+    for _ in range(cn(ctx, 40, 400)):
         cases.append(gen_history(rng, hid)); hid += 1
     ctx.sample("flow", cases[3])
     ctx.run_cases("flow", chk_flow, cases)
@@ -942,7 +994,7 @@ def sub_flow(ctx):
 #     C14_experiment_seeded_call_equals_fresh_experiment)
 XKIND = ["state", "povm", "gate", "mprocess"]
 XATTR = ["states", "povms", "gates", "mprocesses"]
-XERR = {15: "IndexError", 17: "IndexError", 31: "QuaraScheduleItemError", 32: "QuaraScheduleOrderError"}
+XERR = {15: "IndexError", 17: "IndexError", 18: "AttributeError", 31: "QuaraScheduleItemError", 32: "QuaraScheduleOrderError"}
 ZERO_P = 1e-12                      # Born-rule probabilities below this are exact zeros up to rounding (all others are >= 1e-3 here)
 _XCAT = {}
 
@@ -1030,6 +1082,8 @@ def enc_xhop(h):
     if op == "set_sched": return [14, h["o"]] + enc_sched_py(h["sched"])
     if op == "reset_seed_data": return [15, h["o"], 0 if h["sd"] is None else 1, h["sd"] or 0]
     if op == "calc": return [16, h["o"], h["sched"]]
+    if op == "set_sched_item": return [18, h["o"], h["s"], h["j"], h["it"][0], h["it"][1]]
+    if op == "set_sched_outer": return [19, h["o"], h["s"], 2 * len(h["items"])] + [x for it in h["items"] for x in it]
     if op == "call":
         fn = h["fn"]
         pre = [17, h["o"]] + enc_sog(h["sog"])
@@ -1120,7 +1174,7 @@ def chk_exp_hist(ctx, case):
                 return
             continue
         # ---- operations on Experiment objects that return nothing / a new object
-        if op in ("construct", "copy", "set_item", "set_list", "set_sched", "reset_seed_data"):
+        if op in ("construct", "copy", "set_item", "set_list", "set_sched", "set_sched_item", "set_sched_outer", "reset_seed_data"):
             try:
                 with warnings.catch_warnings():
                     warnings.simplefilter("ignore")
@@ -1134,6 +1188,10 @@ def chk_exp_hist(ctx, case):
                         setattr(exps[h["o"]], XATTR[h["k"]], [cat[h["k"]][e] for e in h["l"]])
                     elif op == "set_sched":
                         exps[h["o"]].schedules = [[(XKIND[k], j) for k, j in sch] for sch in h["sched"]]
+                    elif op == "set_sched_item":
+                        exps[h["o"]].schedules[h["s"]][h["j"]] = (XKIND[h["it"][0]], h["it"][1])
+                    elif op == "set_sched_outer":
+                        exps[h["o"]].schedules[h["s"]] = [(XKIND[k], j) for k, j in h["items"]]
                     else:
                         exps[h["o"]].reset_seed_data(h["sd"])
                 impl = ("ok",)
@@ -1153,8 +1211,12 @@ def chk_exp_hist(ctx, case):
                     raise RuntimeError("object numbering: model %s, harness %d" % (pr, len(exps)))
                 exps.append(new)
                 last_mut[pr[1]] = "on-copy" if op == "copy" else ""
+            elif op == "set_sched_item":
+                for oo in range(len(exps)):             # every object sharing the inner list may be affected
+                    last_mut[oo] = "after-in-place-schedule-item"
             elif op != "reset_seed_data":
-                last_mut[h["o"]] = {"set_item": "after-in-place-replacement", "set_list": "after-list-assignment", "set_sched": "after-schedule-assignment"}[op]
+                last_mut[h["o"]] = {"set_item": "after-in-place-replacement", "set_list": "after-list-assignment", "set_sched": "after-schedule-assignment",
+                                    "set_sched_outer": "after-in-place-schedule-replacement"}[op]
             continue
         # ---- calc_prob_dist / generate_*
         o = h["o"]
@@ -1194,9 +1256,12 @@ def chk_exp_hist(ctx, case):
         # ---- a generate_* call
         fn, sog = h["fn"], h["sog"]
         site = "Experiment." + {"data": "generate_data", "dataset": "generate_dataset", "empi_seq": "generate_empi_dist_sequence", "empi_seqs": "generate_empi_dists_sequence"}[fn]
-        _, cont, table, (st, rows) = pr
-        if not heap_ok(i, o, cont):
-            return
+        if pr[0] == "err":                      # a needed schedule ends in an mprocess: AttributeError before any stream is touched
+            cont, table, st, rows = None, None, "err", pr[1]
+        else:
+            _, cont, table, (st, rows) = pr
+            if not heap_ok(i, o, cont):
+                return
         hh = dict(h, target="ex")
         do_call = make_call(hh, exp, None, gens, None)
         try:
@@ -1208,8 +1273,9 @@ def chk_exp_hist(ctx, case):
         if sog[0] == "npint":
             feat += ":numpy-integer-seed"
         if st == "err":
-            if impl[0] != "err" or impl[1] != FLOW_ERR[rows]:
-                ctx.violation("exp_hist", site, "error-kind", "step %d: model raises error %s (%s), implementation %s" % (i, rows, FLOW_ERR[rows], str(impl)[:150]), case)
+            want = XERR[rows] if rows in XERR else FLOW_ERR[rows]
+            if impl[0] != "err" or impl[1] != want:
+                ctx.violation("exp_hist", site, "error-kind", "step %d: model raises error %s (%s), implementation %s" % (i, rows, want, str(impl)[:150]), case)
                 return
             last_mut[o] = ""
             continue
@@ -1221,9 +1287,11 @@ def chk_exp_hist(ctx, case):
         fresh = xbuild(cont)
         with warnings.catch_warnings():
             warnings.simplefilter("ignore")
-            pds = [np.array(fresh.calc_prob_dist(j), dtype=np.float64) for j in range(len(cont["sched"]))]
-        borns = [born(c) for c in table]
+            pds = [(np.array(fresh.calc_prob_dist(j), dtype=np.float64) if sch[-1][0] == 1 else None) for j, sch in enumerate(cont["sched"])]
+        borns = [(born(c) if c[-1][0] == 1 else None) for c in table]
         for j, (p, b) in enumerate(zip(pds, borns)):
+            if p is None:
+                continue
             if p.shape != b.shape or float(np.max(np.abs(p - b))) > 1e-9:
                 ctx.violation("exp_hist", "Experiment.calc_prob_dist", "fresh-experiment-vs-born-rule",
                               "step %d: a fresh Experiment gives %s for circuit %s, the Born rule %s" % (i, p, [(XKIND[k], e) for k, e in table[j]], np.round(b, 12)), case)
@@ -1279,7 +1347,10 @@ def gen_xsched(rng, lists, S):
                 sch.append((3, rng.randrange(len(lists[3])))); used_mp = True
             elif lists[2]:
                 sch.append((2, rng.randrange(len(lists[2]))))
-        sch.append((1, rng.randrange(len(lists[1]))))
+        if lists[3] and not used_mp and rng.random() < 0.1:
+            sch.append((3, rng.randrange(len(lists[3]))))          # a schedule that ENDS in an mprocess (allowed by the validation)
+        else:
+            sch.append((1, rng.randrange(len(lists[1]))))
         out.append(sch)
     return out
 
@@ -1298,6 +1369,10 @@ def gen_xhistory(rng, hid):
     def add_construct():
         c = gen_xcont(rng)
         hops.append({"op": "construct", "cont": _copy.deepcopy(c), "sd": rng.choice([None, None, rng.randint(0, 10 ** 6)])}); conts.append(c)
+
+    def usable(c):
+        """schedules that end in a povm (the others make calc_prob_dist raise AttributeError)"""
+        return [j for j, sch in enumerate(c["sched"]) if sch[-1][0] == 1]
 
     def gen_call(o, sched=None, seed=None):
         c = conts[o]; S = len(c["sched"])
@@ -1343,9 +1418,9 @@ def gen_xhistory(rng, hid):
             hops.append(gen_call(o))
         elif u < 0.50:
             hops.append(gen_set_item(o))
-        elif u < 0.62:
+        elif u < 0.62 and usable(c):
             # the sharpest pattern: use a schedule, replace one of ITS elements in place, use the same schedule again (same seed)
-            sc = rng.randrange(len(c["sched"])); seed = rng.choice(int_seeds)
+            sc = rng.choice(usable(c)); seed = rng.choice(int_seeds)
             first = gen_call(o, sched=sc, seed=seed) if rng.random() < 0.7 else {"op": "calc", "o": o, "sched": sc}
             hops.append(first)
             hops.append(gen_set_item(o, target=rng.choice(c["sched"][sc])))
@@ -1368,9 +1443,24 @@ def gen_xhistory(rng, hid):
             else:
                 c["sched"] = _copy.deepcopy(sched)
             hops.append({"op": "set_sched", "o": o, "sched": sched})
-        elif u < 0.85:
-            hops.append({"op": "copy", "o": o}); conts.append(_copy.deepcopy(c))
-        elif u < 0.90:
+        elif u < 0.84:
+            # copy(): new element lists, new OUTER schedule list, the inner schedule lists are SHARED (mirrored here by sharing them too)
+            hops.append({"op": "copy", "o": o}); conts.append({"lists": _copy.deepcopy(c["lists"]), "sched": list(c["sched"])})
+        elif u < 0.875:
+            # experiment.schedules[s][j] = (same kind, another valid index): in place in an inner list - seen by every object sharing it
+            sc = rng.randrange(len(c["sched"])); j = rng.randrange(len(c["sched"][sc])); k = c["sched"][sc][j][0]
+            if rng.random() < 0.08:
+                hops.append({"op": "set_sched_item", "o": o, "s": sc, "j": len(c["sched"][sc]), "it": [k, 0]})     # IndexError, nothing changes
+            else:
+                it = (k, rng.randrange(len(c["lists"][k])))
+                c["sched"][sc][j] = it
+                hops.append({"op": "set_sched_item", "o": o, "s": sc, "j": j, "it": list(it)})
+        elif u < 0.89:
+            # experiment.schedules[s] = <a new valid schedule>: in place in the OUTER list (this object only)
+            sc = rng.randrange(len(c["sched"])); new = gen_xsched(rng, c["lists"], 1)[0]
+            c["sched"][sc] = list(new)
+            hops.append({"op": "set_sched_outer", "o": o, "s": sc, "items": [list(it) for it in new]})
+        elif u < 0.91:
             hops.append({"op": "calc", "o": o, "sched": rng.choice(list(range(len(c["sched"]))) + [len(c["sched"])])})
         elif u < 0.93 and len(conts) < 3:
             add_construct()
@@ -1385,7 +1475,7 @@ def gen_xhistory(rng, hid):
 
 def sub_exp_hist(ctx):
     rng = ctx.rng
-    cases = [gen_xhistory(rng, hid) for hid in range(ctx.n(70, 700))]
+    cases = [gen_xhistory(rng, hid) for hid in range(cn(ctx, 70, 700))]
     ctx.sample("exp_hist", cases[0])
     ctx.run_cases("exp_hist", chk_exp_hist, cases)
 
@@ -1513,7 +1603,83 @@ def run(ctx):
                 "entry (rn2data), >= 2 members or an error branch (empi_seq), a call that is not the first step (flow), a successful call / calc_prob_dist made after a mutation or on a copy (exp_hist); distinct = distinct input record")
     # _random_number_to_data is additionally REGENERATED from /repo's source by the translator on every run and proved equal to the
     # model rn2data (coq/gen/C14_Equiv.v), so the inversion-sampling theorems hold of the Python text itself
-    flow.standard_run(ctx, SUBS, regens=[("random_number", "C14_Equiv")])
+    # calc_empi_dist_sequence, to_stream, Experiment.reset_seed_data / .seed_data and QTomography.reset_seed are REGENERATED by this
+    # property's own translator gen/c14_py2coq.py and proved equal to empi_seq / to_stream / reset_seed_data / tomo_reset_seed
+    # (coq/gen/C14_Equiv2.v).  Same protocol as flow.standard_run.
+    import runner
+    ok, info = runner.check_props(ctx)
+    before = list(ctx.theorems)
+    ok2, info2 = flow.regen_check(ctx, "random_number", "C14_Equiv")
+    ctx.theorems = before + [t for t in ctx.theorems if t not in before]
+    ctx.obligations += getattr(ctx, "regen_obligations", 0)
+    ctx.discharged += getattr(ctx, "regen_discharged", 0)
+    ok3, info3 = regen_c14(ctx)
+    ctx.widen = set()
+    for okx, infox, what, subs in ((ok2, info2, "random_number / C14_Equiv", ("rn2data", "fallback", "gen_data")),
+                                   (ok3, info3, "c14_py2coq / C14_Equiv2", ("empi_seq",))):
+        if not okx:
+            ok, info = False, infox
+            ctx.widen.update(subs)          # these sub-checks become the search for a concrete failing input: thorough counts
+            ctx.note("regenerated-model obligations (%s) not discharged: %s" % (what, str(infox)[:400]))
+    if not ok:
+        ctx.discharged = min(ctx.discharged, ctx.obligations - 1)
+    for name, fn in SUBS:
+        if ctx.only is None or name in ctx.only:
+            ctx.cur_sub = name
+            fn(ctx)
+    ctx.cur_sub = None
+    if not ok and not ctx.violations:
+        ctx.violation("theorems", "Props/%s.v" % ctx.prop_id, "theorem-broken:%s" % info.get("theorem"),
+                      "theorem %s no longer checks: %s" % (info.get("theorem"), info.get("error", "")[-400:]),
+                      {"theorem": info.get("theorem"), "error": info.get("error")}, no_input=True)
+    elif not ok:
+        ctx.note("theorem obligations not discharged: %s" % info)
+
+
+def regen_c14(ctx):
+    """translator tie with this property's own translator: regenerate Gallina definitions of calc_empi_dist_sequence, to_stream,
+    Experiment.reset_seed_data, Experiment.seed_data and QTomography.reset_seed from the CURRENT source, compile them, re-check
+    coq/gen/C14_Equiv2.v (equality with the hand-written models for all inputs; transported theorems).  returns (ok, info)"""
+    import os, re, shutil, subprocess, sys
+    import runner
+    V = runner.V
+    scratch = os.path.join(getattr(ctx, "scratch", os.path.join(V, "build", ctx.prop_id)), "gen2")
+    os.makedirs(scratch, exist_ok=True)
+    gen_v = os.path.join(scratch, "Gen_c14.v")
+    equiv = os.path.join(V, "coq", "gen", "C14_Equiv2.v")
+    src = open(equiv).read()
+    src_nc = re.sub(r"\(\*.*?\*\)", " ", src, flags=re.S)
+    thms = re.findall(r"^\s*Theorem\s+([\w']+)", src_nc, flags=re.M)
+    ctx.theorems = list(ctx.theorems) + [t for t in thms if t not in ctx.theorems]
+    ctx.obligations += len(thms)
+    r = subprocess.run([sys.executable, os.path.join(V, "gen", "c14_py2coq.py"), os.environ.get("VERIF_REPO", "/repo"),
+                        os.path.join(V, "gen", "c14_signatures.json"), gen_v], capture_output=True, text=True, timeout=120)
+    if r.returncode != 0:
+        return False, {"theorem": thms[0], "error": "translator rejected the source (outside its subset): " + (r.stdout + r.stderr)[-600:]}
+    q = ["-Q", os.path.join(V, "coq", "theories"), "QV", "-Q", scratch, "QVGen2"]
+    r = subprocess.run(["timeout", "300", "coqc"] + q + [gen_v], capture_output=True, text=True)
+    if r.returncode != 0:
+        return False, {"theorem": thms[0], "error": "regenerated definitions do not compile: " + (r.stdout + r.stderr)[-600:]}
+    dst = os.path.join(scratch, "C14_Equiv2.v")
+    shutil.copy(equiv, dst)
+    r = subprocess.run(["timeout", "600", "coqc"] + q + [dst], capture_output=True, text=True)
+    out = r.stdout + r.stderr
+    if r.returncode != 0:
+        m_ = re.search(r"line (\d+), characters", out)
+        thm = None
+        if m_:
+            upto = "\n".join(src.splitlines()[:int(m_.group(1))])
+            names = re.findall(r"^\s*(?:Theorem|Lemma)\s+([\w']+)", upto, flags=re.M)
+            thm = names[-1] if names else None
+        return False, {"theorem": thm, "error": out[-800:]}
+    blocks = runner.parse_assumptions(out)
+    bad = [a for closed, axs in blocks for a in axs if a not in runner.ALLOWED_AXIOMS and a.split(".")[-1] not in runner.ALLOWED_AXIOMS]
+    if len(blocks) != len(thms) or bad:
+        return False, {"theorem": thms[0], "error": "assumption gate on regenerated proofs: %d blocks / %d theorems, disallowed %s" % (len(blocks), len(thms), bad)}
+    for t, (closed, axs) in zip(thms, blocks):
+        ctx.axioms[t] = "closed" if closed else sorted(set(axs))
+    ctx.discharged += len(thms)
+    return True, {}
 
 
 def replay(ctx, doc):
